@@ -194,6 +194,7 @@ def ss_items(tier, seed):
         c = dict(c, seed=seed, pair_G=b["pair_G"][c["n"]])
         items.append(("ss", dict(c, model="skyride")))
         items.append(("ss", dict(c, model="skygrid_cutoff")))
+        items.append(("ss", dict(c, model="skygrid_onevent", G=1)))
         for G in Gs:
             items.append(("ss", dict(c, model="skygrid", G=G)))
     return items
@@ -873,10 +874,17 @@ def check_ss_case(cfg, placement, route, inter_b=None):
     if cfg["model"] == "skygrid_cutoff":
         # regular grid built by the model itself from a cut-off: placement = (K, factor)
         K, factor = placement
-        grid = {"cutoff": round(factor * g.times[-1], 6)}
+        # factor 1: the cut-off is the root height itself (last grid point exactly on the last event)
+        grid = {"cutoff": g.times[-1] if factor == 1.0 else round(factor * g.times[-1], 6)}
         pts = set(np.linspace(0.0, grid["cutoff"], K)[1:].tolist())
         if route not in ("tree", "data", "b_tree"):
             return [], 0, False, "n/a"
+    elif cfg["model"] == "skygrid_onevent":
+        # grid points exactly on event times (sampling or coalescent): only the identities between the
+        # statistics, the counts and log_prob of the same object are demanded, whatever the tie convention
+        grid = sorted({g.times[j] for j in placement})
+        pts = set()
+        K = len(grid) + 1
     else:
         grid = None if sky else gen.grid_of(g.times, tuple(placement), cfg["seed"])
         pts = set(grid or [])
@@ -886,7 +894,7 @@ def check_ss_case(cfg, placement, route, inter_b=None):
         c_b = g.realise(inter_b or g.inter, avoid=pts)
         if c_b is None:
             return [], 0, False, "infeasible"
-    if pts & set(g.times + (c_b or [])):
+    if cfg["model"] == "skygrid" and pts & set(g.times + (c_b or [])):
         raise RuntimeError("harness: grid point on an event")
     th = ss_thetas(K, cfg["seed"])
     tsets = [th] if route.startswith("b_") else [th, th[::-1]]
@@ -941,7 +949,11 @@ def ss_placements(cfg):
     if cfg["model"] == "skyride":
         return [()]
     if cfg["model"] == "skygrid_cutoff":
-        return [(K, f) for K in (2, 3, 5) for f in (0.6, 1.4)]
+        return [(K, f) for K in (2, 3, 5) for f in (0.6, 1.0, 1.4)]
+    if cfg["model"] == "skygrid_onevent":
+        g = Genealogy(cfg["inter"], cfg["ties"], cfg["seed"])
+        pos = sorted({j for j, t in enumerate(g.times) if t > 0 and g.times.index(t) == j})
+        return [(j,) for j in pos] + [(j, k) for j in pos for k in pos if j < k]
     g = Genealogy(cfg["inter"], cfg["ties"], cfg["seed"])
     pl = gen.grid_placements(g.times, cfg["G"])
     assert len(pl) == gen.n_multisets(len(gen.positive_gaps(g.times)), cfg["G"]), "placement count"
@@ -1065,7 +1077,7 @@ def run(run):
                 "{single, field-batched, tree-batched (second row: other heights on the same tree)}; cint: every "
                 "interleaving x sampling-tie mode x 12 (alpha,beta) x 6 construction routes, the batched ones "
                 "with EVERY interleaving of the same tips as second row; ss: every interleaving x tie mode x "
-                "every multiset placement of G grid points in the gaps/beyond the root (+6 cut-off grids) x 8 "
+                "every multiset placement of G grid points in the gaps/beyond the root (+9 cut-off grids incl. cut-off = root height, + grids with 1 or 2 points exactly on event times) x 8 "
                 "routes x theta vectors, the height-batched routes with every interleaving of the same tips "
                 "as second row for G <= pair_G[n]. "
                 "non-trivial = non-constant field (gmrf, gint), >= 2 coalescences (cint), >= 2 non-zero "
